@@ -864,6 +864,13 @@ impl Visitor<Diagnostic> for LibraryRenderer {
         self.write_ws(":");
         self.newline();
 
+        self.indent();
+        for elem in node.initial_step.action_associations.iter() {
+            self.visit_action_association(elem)?;
+            self.newline();
+        }
+        self.outdent();
+
         self.write_ws("END_STEP");
         self.newline();
         self.newline();
@@ -944,13 +951,37 @@ impl Visitor<Diagnostic> for LibraryRenderer {
         self.write_ws("(");
 
         if let Some(qualifier) = &node.qualifier {
-            self.write_ws(qualifier.to_string().as_str());
-            if !node.indicators.is_empty() {
+            use dsl::sfc::ActionQualifier;
+            let (name, time) = match qualifier {
+                ActionQualifier::N => ("N", None),
+                ActionQualifier::R => ("R", None),
+                ActionQualifier::S => ("S", None),
+                ActionQualifier::L => ("L", None),
+                ActionQualifier::D => ("D", None),
+                ActionQualifier::P => ("P", None),
+                ActionQualifier::SD(time) => ("SD", Some(time)),
+                ActionQualifier::DS(time) => ("DS", Some(time)),
+                ActionQualifier::SL(time) => ("SL", Some(time)),
+                ActionQualifier::PR(time) => ("PR", Some(time)),
+                ActionQualifier::PF(time) => ("PF", Some(time)),
+            };
+            self.write_ws(name);
+            if let Some(time) = time {
                 self.write_ws(",");
+                match time {
+                    dsl::sfc::ActionTimeKind::Duration(duration) => {
+                        self.visit_duration_literal(duration)?
+                    }
+                    dsl::sfc::ActionTimeKind::VariableName(name) => self.visit_id(name)?,
+                }
             }
         }
 
-        visit_comma_separated!(self, node.indicators.iter(), Id);
+        // Every indicator follows a comma, also when there is no qualifier
+        for indicator in node.indicators.iter() {
+            self.write_ws(",");
+            self.visit_id(indicator)?;
+        }
         self.write_ws(");");
 
         Ok(())
